@@ -42,7 +42,7 @@ func genC18(rt *rapid.T) CaseC18 {
 		c.Types = append(c.Types, rapid.SampledFrom([]string{"eventlog", "keyvalue", "docstore"}).Draw(rt, "type"))
 		c.Writes = append(c.Writes, rapid.IntRange(0, 4).Draw(rt, "writes"))
 		c.Remote = append(c.Remote, rapid.IntRange(0, 3).Draw(rt, "remote"))
-		c.InFlight = append(c.InFlight, rapid.SampledFrom([]string{"none", "repl", "repl", "merged"}).Draw(rt, "inflight"))
+		c.InFlight = append(c.InFlight, rapid.SampledFrom([]string{"none", "repl", "repl", "merged", "load", "load"}).Draw(rt, "inflight"))
 	}
 	return c
 }
@@ -168,6 +168,22 @@ func execC18(c CaseC18) *Outcome {
 			acked[d] = append(acked[d], want...)
 		}
 	}
+	// loads in flight: the store is reopened (heads on disk, nothing loaded) and Load parks in its first fetch
+	loadDone := map[int]chan error{}
+	for d := 0; d < n; d++ {
+		if c.InFlight[d] != "load" || len(acked[d]) == 0 {
+			continue
+		}
+		if err := ss[d].Close(); err != nil {
+			return fail("harness: close before reload: %v", err)
+		}
+		s, err := db0.Open(ctx, addrs[d], &orbitdb.CreateDBOptions{})
+		if err != nil {
+			return fail("harness: reopen: %v", err)
+		}
+		ss[d] = s
+		loadDone[d] = make(chan error, 1)
+	}
 	for d := 0; d < n; d++ {
 		if c.Remote[d] == 0 || c.InFlight[d] != "repl" {
 			continue
@@ -180,6 +196,19 @@ func execC18(c CaseC18) *Outcome {
 		}
 		parkedAny = true
 	}
+	for d := range loadDone {
+		p0.SetGate(true)
+		s, ch := ss[d], loadDone[d]
+		go func() {
+			defer func() {
+				if r := recover(); r != nil {
+					ch <- fmt.Errorf("Load panicked: %v", r)
+				}
+			}()
+			ch <- s.Load(ctx, -1)
+		}()
+		parkedAny = true
+	}
 	if parkedAny {
 		world.WaitFor(func() bool { return len(p0.Parked()) > 0 }, 5*time.Second)
 	}
@@ -189,7 +218,9 @@ func execC18(c CaseC18) *Outcome {
 	var midAcked []string
 	var midMu sync.Mutex
 	t := c.Target % n
-	if c.MidWrite {
+	// (a store is only written after it has been loaded - every caller does so; a target whose Load is the
+	// in-flight operation therefore gets no concurrent writer)
+	if _, loading := loadDone[t]; c.MidWrite && !loading {
 		wg.Add(1)
 		go func() {
 			defer wg.Done()
@@ -275,6 +306,16 @@ func execC18(c CaseC18) *Outcome {
 	}
 	if actErr != nil {
 		return fail("%s (%s): %v", c.Action, summaryC18(c), actErr)
+	}
+	for d, ch := range loadDone {
+		select {
+		case err := <-ch:
+			if err != nil && len(err.Error()) > 14 && err.Error()[:14] == "Load panicked:" {
+				return fail("%s (%s), database %d: %v", c.Action, summaryC18(c), d, err)
+			}
+		case <-time.After(20 * time.Second):
+			return fail("%s (%s): the Load of database %d that was in flight did not return within 20s after the close", c.Action, summaryC18(c), d)
+		}
 	}
 
 	// every public operation on the closed object returns (error or harmless result)
